@@ -2,7 +2,6 @@ package spec
 
 import (
 	"go/ast"
-	"sort"
 	"strings"
 
 	"lndlint/internal/an"
@@ -43,7 +42,7 @@ func runC07(r *an.Run) {
 		func(o *an.Obl) { p.CheckLocks(o, circuitLock) })
 
 	r.Obl("closing-test-and-set-atomic", "LOCK",
-		"FailCircuit and CloseCircuit take the write lock once, release it only by defer, insert into `closed` only after the circuit was found and `closed` did not contain it, and return the circuit only on that path; the switch reaches FailCircuit/CloseCircuit only through closeCircuit",
+		"FailCircuit and CloseCircuit take the write lock once, release it only by defer (also inside function literals), look the circuit up under their key parameter and test `closed` under the very key they then insert (the incoming key of the circuit found), act on the unmodified results of those two lookups, insert into `closed` only after the circuit was found and `closed` did not contain it, never remove from `closed`, and return the circuit only on that path; the switch reaches FailCircuit/CloseCircuit only through closeCircuit, which hands out a circuit only as the result of one of them and only when that call returned no error",
 		"this is the one place that turns two competing settle/fail packets into exactly one delivery", 8,
 		func(o *an.Obl) {
 			for _, name := range []string{"FailCircuit", "CloseCircuit"} {
@@ -59,82 +58,9 @@ func runC07(r *an.Run) {
 				if lvl := p.LockLevelAt(circuitLock, ins[0]); lvl != 2 {
 					o.FailAt(f.ID+"#insert-unlocked", ins[0].Where(), "insertion into closed at lock level %d", lvl)
 				}
-				// no explicit unlock inside
-				for _, s := range f.Calls(an.CalleeNamed("Unlock", "RUnlock"), false) {
-					if s.V.Kind.String() != "defer" {
-						o.FailAt(f.ID+"#explicit-unlock", s.Where(), "the critical section is split by an explicit unlock: %s", s.String())
-					}
-				}
-				// membership test: `_, ok = cm.closed[k]` false, and found true
-				var okFacts []an.Fact
-				for _, v := range f.Graph().V {
-					as, isAs := v.Node.(*ast.AssignStmt)
-					if !isAs || len(as.Lhs) != 2 || len(as.Rhs) != 1 {
-						continue
-					}
-					ix, isIx := ast.Unparen(as.Rhs[0]).(*ast.IndexExpr)
-					if !isIx {
-						continue
-					}
-					m := f.Canon(ix.X)
-					o.Site("%s: lookup %s", name, an.Text(as))
-					_ = m
-					okFacts = append(okFacts, an.Fact{})
-				}
-				if len(okFacts) != 2 {
-					o.FailAt(f.ID+"#lookups", f.Where(f.Body.Pos()), "expected the two map lookups (circuit found, already closing), found %d", len(okFacts))
-				}
-				// the success return is the only one returning a non-nil circuit and is after the insertion
-				for _, ret := range f.StrictSuccessReturns() {
-					o.Site("%s returns %s", name, ret.String())
-					if !f.Before(ins, ret) {
-						o.FailAt(f.ID+"#return-before-insert", ret.Where(), "a circuit is returned without having been marked closing")
-					}
-				}
-				// the two error returns dominate: insertion unreachable when a
-				// lookup says "unknown" or "already closing": cut the edges of
-				// both `ok` tests towards the insertion and require it dead
-				g := f.Graph()
-				var conds []*ast.Ident
-				for _, v := range g.V {
-					if v.Kind.String() == "cond" {
-						if id, isId := v.Node.(*ast.Ident); isId && id.Name == "ok" {
-							conds = append(conds, id)
-						}
-					}
-				}
-				if len(conds) != 2 {
-					o.FailAt(f.ID+"#ok-tests", f.Where(f.Body.Pos()), "expected two tests of a lookup result, found %d", len(conds))
-				}
-				// polarity: the insertion needs "found" from the first lookup and
-				// "not yet closing" from the second
-				var condV []*an.FlowVertex
-				for _, v := range g.V {
-					if v.Kind.String() == "cond" {
-						if id, isId := v.Node.(*ast.Ident); isId && id.Name == "ok" {
-							condV = append(condV, v)
-						}
-					}
-				}
-				sort.Slice(condV, func(i, j int) bool { return condV[i].Node.Pos() < condV[j].Node.Pos() })
-				if len(condV) == 2 {
-					for i, need := range []struct {
-						kind string
-						what string
-					}{{"true", "the circuit was found"}, {"false", "the circuit is not closing yet"}} {
-						cut := an.FlowEdgeSet{}
-						for _, e := range condV[i].Out {
-							if (need.kind == "true") == (e.Kind == 1) { // flow.ETrue
-								cut[e] = true
-							}
-						}
-						o.Site("%s: lookup %d must answer %s for the insertion", name, i+1, need.kind)
-						if g.Reach(g.Entry, cut, nil)[ins[0].V] {
-							o.FailAt(f.ID+"#polarity-"+need.kind, f.Where(condV[i].Node.Pos()), "%s marks the circuit closing although not: %s", name, need.what)
-						}
-					}
-				}
+				c07CriticalSection(o, f, name, ins[0])
 			}
+			c07CloseCircuitReturns(o, p)
 			w := r.Wide()
 			for _, m := range []string{"FailCircuit", "CloseCircuit"} {
 				w.WhoMay(o, hs+"CircuitMap."+m, w.RefsTo(w.Method("htlcswitch", "circuitMap", m), true),
@@ -447,7 +373,7 @@ func runC07(r *an.Run) {
 		})
 
 	r.Obl("keystones-before-signature", "PATH",
-		"channelLink.updateCommitTx opens the batched keystones (durably) before SignNextCommitment; both TrimOpenCircuits callers pass the channel's NextLocalHtlcIndex",
+		"channelLink.updateCommitTx opens the batched keystones (durably) before SignNextCommitment; both TrimOpenCircuits callers pass the channel's NextLocalHtlcIndex, which returns an HTLC index on both of its branches: the LocalHtlcIndex of the pending remote commitment if there is one, else of the remote commitment (never a log index)",
 		"an outgoing HTLC that reached a commitment without a durable keystone cannot be matched to its incoming HTLC after a restart: the response is lost or the add is re-forwarded", 4,
 		func(o *an.Obl) {
 			f := p.Func(hs + "channelLink.updateCommitTx")
@@ -476,6 +402,7 @@ func runC07(r *an.Run) {
 			if n < 2 {
 				o.FailAt("TrimOpenCircuits#callers", "", "expected two callers of TrimOpenCircuits, found %d", n)
 			}
+			c07NextLocalHtlcIndex(o, p)
 		})
 
 	r.Obl("closed-channel-cleanup-keeps-pending-resolutions", "GUARD",
@@ -608,70 +535,11 @@ func runC07(r *an.Run) {
 		})
 
 	r.Obl("circuit-key-roles-and-full-trim", "ROLE",
-		"the circuit map's `pending` and `closed` sets are keyed by the incoming circuit key and `opened` by the outgoing key: no function indexes `opened` with an expression it also uses for `pending` or `closed`, an `.Incoming` / InKey expression never indexes `opened` and an `.Outgoing` / OutKey expression never indexes `pending` or `closed`; the start-up trim (trimAllOpenCircuits) visits every open channel: its loop is left only at the end or with an error, skipped channels `continue`",
+		"the circuit map's `pending` and `closed` sets are keyed by the incoming circuit key and `opened` by the outgoing key (the fields and the locals restoreMemState assigns to them): no function indexes `opened` with an expression it also uses for `pending` or `closed`, an expression made of `.Incoming` / InKey / inKey never indexes `opened` and one made of `.Outgoing` / OutKey / outKey never indexes `pending` or `closed`; a key parameter of a circuit map method has the side of the map it indexes and every caller in htlcswitch passes it a key of that side; NewCircuitMap runs the start-up trim (trimAllOpenCircuits) unconditionally; the trim ranges over exactly the channels FetchAllOpenChannels returned, its loop is left only at the end or with an error, and every iteration reaches TrimOpenCircuits(channel's short id, channel's NextLocalHtlcIndex) unless the channel is pending or has no final short channel id",
 		"CloseCircuit and FailCircuit arbitrate through the same `closed` entry: keyed differently, a local failure and a remote response for one HTLC both win and two responses go upstream; a trim that stops early leaves uncommitted keystones open, so the re-forwarded add is dropped instead of failed back", 20,
 		func(o *an.Obl) {
-			roleOf := map[string]string{"pending": "in", "closed": "in", "opened": "out"}
-			n := 0
-			for _, f := range p.Funcs(false, "htlcswitch") {
-				if f.Lit != nil {
-					continue
-				}
-				used := map[string]map[string]string{} // key canon -> role -> where
-				var visit func(fn *an.Func)
-				visit = func(fn *an.Func) {
-					ast.Inspect(fn.Body, func(nd ast.Node) bool {
-						if fl, ok := nd.(*ast.FuncLit); ok {
-							visit(fn.LitFunc(fl))
-							return false
-						}
-						var m, key ast.Expr
-						switch x := nd.(type) {
-						case *ast.IndexExpr:
-							m, key = x.X, x.Index
-						case *ast.CallExpr:
-							if id, ok := x.Fun.(*ast.Ident); ok && id.Name == "delete" && len(x.Args) == 2 {
-								m, key = x.Args[0], x.Args[1]
-							}
-						}
-						if m == nil {
-							return true
-						}
-						sel, ok := ast.Unparen(m).(*ast.SelectorExpr)
-						if !ok {
-							return true
-						}
-						role, isMap := roleOf[sel.Sel.Name]
-						if !isMap || an.TypeID(fn.Info().TypeOf(sel.X)) != hs+"circuitMap" {
-							return true
-						}
-						n++
-						kc := fn.Canon(key)
-						kt := an.Text(key)
-						o.Site("%s: %s[%s]", fn.Where(nd.Pos()), sel.Sel.Name, kt)
-						if used[kc] == nil {
-							used[kc] = map[string]string{}
-						}
-						used[kc][role] = fn.Where(nd.Pos()) + " " + sel.Sel.Name
-						explicitIn := strings.Contains(kt, ".Incoming") || strings.Contains(kt, "InKey")
-						explicitOut := strings.Contains(kt, ".Outgoing") || strings.Contains(kt, "OutKey")
-						if (role == "out" && explicitIn) || (role == "in" && explicitOut) {
-							o.FailAt(f.ID+"#key-role-"+sel.Sel.Name, fn.Where(nd.Pos()), "%s is indexed with %s, a key of the other side of the circuit", sel.Sel.Name, kt)
-						}
-						return true
-					})
-				}
-				visit(f)
-				for kc, roles := range used {
-					if len(roles) == 2 {
-						o.FailAt(f.ID+"#key-both-roles", roles["in"], "%s uses the same key (%s) for the incoming-keyed sets (%s) and for the outgoing-keyed map (%s)", f.ID, kc, roles["in"], roles["out"])
-					}
-				}
-			}
-			if n < 20 {
-				o.FailAt("circuitMap#index-sites", "", "expected at least 20 keyed accesses to the circuit maps, found %d", n)
-			}
-			loopVisitsAll(o, p.Func(hs+"circuitMap.trimAllOpenCircuits"), `activeChannels|FetchAllOpenChannels`)
+			c07KeyRoles(o, p)
+			c07StartupTrim(o, p)
 		})
 
 	retrySafeClosures(r, []string{"htlcswitch"}, `^htlcswitch\.circuitMap\.`, 6, "the circuit map commits, opens, trims and deletes circuits in kvdb transactions (kvdb.Batch retries by design); a closure that continues from an aborted run writes other circuits than the ones its in-memory mirror is updated with")
